@@ -2921,7 +2921,10 @@ func marshalDefault(in []any) (x Stack, c Condition, err error) {
 	}
 
 	// De-envelope needlessly enveloped value
-	in = deenvelopeSingleStack(in)
+	if in = deenvelopeSingleStack(in); len(in) == 0 {
+		err = errorf("Empty input")
+		return
+	}
 
 	// The first string value in a stack indicates the
 	// appropriate type of stack or condition
@@ -2976,14 +2979,14 @@ func marshalDefault(in []any) (x Stack, c Condition, err error) {
 }
 
 func deenvelopeSingleStack(in []any) []any {
-	if len(in) == 1 {
-		for {
-			if inner, ok := in[0].([]any); ok {
-				in = inner
-			} else {
-				break
-			}
+	// strip envelopes, i.e.: slices that
+	// hold nothing but another slice.
+	for len(in) == 1 {
+		inner, ok := in[0].([]any)
+		if !ok {
+			break
 		}
+		in = inner
 	}
 
 	return in
